@@ -242,6 +242,18 @@ def build(spec: Spec) -> Built:
     return Built(spec, classes, {cls: i for i, cls in enumerate(classes)}, tymap=tymap)
 
 
+def retarget(b: "Built", ci: int, fn: str, new):
+    """Re-declare field `fn` of class `ci` the documented way (`Cls.__init__.__annotations__[fn] = T`) on ALREADY BUILT
+    classes, and keep the spec in step."""
+    fields = b.spec.classes[ci].fields
+    j = next(i for i, (n_, _) in enumerate(fields) if n_ == fn)
+    fields[j] = (fn, new)
+    pt = py_type(new, b.classes)
+    b.classes[ci].__init__.__annotations__[fn] = pt
+    b.classes[ci].__annotations__[fn] = pt
+    _collect_tymap(new, pt, b.tymap)
+
+
 def _collect_tymap(ft, pt, out):
     """pair every component of a declared field type with the typing object built for it"""
     if isinstance(ft, str) or ft[0] == "cls":
